@@ -9,10 +9,10 @@ for d in seeded/_pending/*/*/; do
   RUN=$(grep -oE "func (Test[A-Za-z0-9_]+)" $d/demo_test.go | awk '{print $2}' | paste -sd'|')
   files=$(grep -E "^\+\+\+ " $d/patch.diff | tr '\n' ' ')
   case "$files" in
-    *internal/xsync*) PIDS="$P C03 C04 C11 C13 C14 C16";;
+    *internal/xsync*) PIDS="$P C03 C04 C05 C08 C10 C11 C13 C14 C16 C07";;
     *) PIDS="$P C01 C02 C05 C06 C07 C09 C13 C14 C15 C16";;
   esac
-  PIDS=$(echo $PIDS | tr ' ' '\n' | awk '!s[$0]++' | grep -v -E "^(C08|C10)$" | tr '\n' ' ')
+  PIDS=$(echo $PIDS | tr ' ' '\n' | awk '!s[$0]++' | tr '\n' ' ')
   echo "=== $P/$I dest=$DEST run=$RUN pids=$PIDS"
   tools/seedtest.sh /verif/$d $DEST "$RUN" $PIDS
 done
